@@ -12,3 +12,132 @@ Theorem C02_next_level :
             a_finished (fst (next_level a)) = a_finished a.
 Proof. exact next_level_spec. Qed.
 Print Assumptions C02_next_level.
+
+(* ---- placement invariant over arbitrary operation sequences (Proofs/C02Placement.v) ---- *)
+Require Import Eliot.Model.Prog Eliot.Proofs.C02Placement.
+
+(* for every interleaving (= every list of (context, operation)) satisfying the discipline:
+   no two messages offered to the observed destination share (task_uuid, task_level) *)
+Theorem C02_unique :
+  forall (cfg : config) (i c0 : nat) (ds : list dest) (ops : list (nat * op)),
+    observed i ds -> disciplined i cfg ops (registered ds) = true ->
+    NoDup (map (fun m => (fget K_uuid m, fget K_level m)) (trace_of (final cfg c0 ds ops) i)).
+Proof. exact C02Placement.C02_unique. Qed.
+Print Assumptions C02_unique.
+
+(* under one owner (same uuid, same level prefix) positions are emitted in increasing order *)
+Theorem C02_emission_order :
+  forall (cfg : config) (i c0 : nat) (ds : list dest) (ops : list (nat * op)),
+    observed i ds -> disciplined i cfg ops (registered ds) = true ->
+    forall t1 m1 t2 m2 t3 u p k1 k2,
+      trace_of (final cfg c0 ds ops) i = t1 ++ m1 :: t2 ++ m2 :: t3 ->
+      (fget K_uuid m1, fget K_level m1) = (Some (VUuid u), Some (VLevel (p ++ [k1]))) ->
+      (fget K_uuid m2, fget K_level m2) = (Some (VUuid u), Some (VLevel (p ++ [k2]))) ->
+      (k1 < k2)%positive.
+Proof. exact C02Placement.C02_emission_order. Qed.
+Print Assumptions C02_emission_order.
+
+(* every message carries a uuid and a non-empty level handed out by the action object
+   with that uuid and level prefix, or is message [1] of a uuid no action ever had *)
+Theorem C02_placed :
+  forall (cfg : config) (i c0 : nat) (ds : list dest) (ops : list (nat * op)),
+    observed i ds -> disciplined i cfg ops (registered ds) = true ->
+    forall m, In m (trace_of (final cfg c0 ds ops) i) ->
+    exists u p k,
+      fget K_uuid m = Some (VUuid u) /\ fget K_level m = Some (VLevel (p ++ [Pos.of_nat k])) /\
+      ((exists h a, alookup h (heap (final cfg c0 ds ops)) = Some a /\ a_uuid a = u /\ a_level a = p /\
+                    1 <= k <= a_last a) \/
+       (p = [] /\ k = 1 /\ u < next_uuid (final cfg c0 ds ops) /\
+        forall h a, alookup h (heap (final cfg c0 ds ops)) = Some a -> a_uuid a <> u)).
+Proof. exact C02Placement.C02_placed. Qed.
+Print Assumptions C02_placed.
+
+(* each child's level extends its parent's; distinct action objects own distinct (uuid, level) *)
+Theorem C02_child_extends :
+  forall (cfg : config) (i c0 : nat) (ds : list dest) (ops : list (nat * op)),
+    observed i ds -> disciplined i cfg ops (registered ds) = true ->
+    forall h a, alookup h (heap (final cfg c0 ds ops)) = Some a ->
+    a_level a = [] \/
+    exists hp pa k, alookup hp (heap (final cfg c0 ds ops)) = Some pa /\ a_uuid pa = a_uuid a /\
+                    a_level a = a_level pa ++ [Pos.of_nat k] /\ 1 <= k <= a_last pa.
+Proof. exact C02Placement.C02_child_extends. Qed.
+Print Assumptions C02_child_extends.
+
+Theorem C02_distinct_owners :
+  forall (cfg : config) (i c0 : nat) (ds : list dest) (ops : list (nat * op)),
+    observed i ds -> disciplined i cfg ops (registered ds) = true ->
+    forall h1 h2 a1 a2,
+      alookup h1 (heap (final cfg c0 ds ops)) = Some a1 ->
+      alookup h2 (heap (final cfg c0 ds ops)) = Some a2 ->
+      a_uuid a1 = a_uuid a2 -> a_level a1 = a_level a2 -> h1 = h2.
+Proof. exact C02Placement.C02_distinct_owners. Qed.
+Print Assumptions C02_distinct_owners.
+
+(* contiguity (stronger discipline: no serializers, no position requested from a finished action):
+   positions used under an action are exactly 1.._last_child, start at 1, end at the last *)
+Theorem C02_contiguous :
+  forall (cfg : config) (i c0 : nat) (ds : list dest) (ops : list (nat * op)),
+    observed i ds -> disciplined2 i cfg ops (registered ds) = true ->
+    let s := final cfg c0 ds ops in
+    forall h a, alookup h (heap s) = Some a ->
+      (forall k, 1 <= k ->
+         (used (heap s) (ids s) (trace_of s i) (a_uuid a) (a_level a ++ [Pos.of_nat k])
+          <-> k <= a_last a)) /\
+      (exists m, In m (trace_of s i) /\
+         (fget K_uuid m, fget K_level m) =
+           (Some (VUuid (a_uuid a)), Some (VLevel (a_level a ++ [1%positive]))) /\
+         fget K_status m = Some (VStatus Started)) /\
+      (a_finished a = true ->
+       exists m, In m (trace_of s i) /\
+         (fget K_uuid m, fget K_level m) =
+           (Some (VUuid (a_uuid a)), Some (VLevel (a_level a ++ [Pos.of_nat (a_last a)]))) /\
+         (fget K_status m = Some (VStatus Succeeded) \/ fget K_status m = Some (VStatus Failed))).
+Proof. exact C02Placement.C02_contiguous. Qed.
+Print Assumptions C02_contiguous.
+
+(* the op list of a well-formed logging program is disciplined, whatever the destinations do *)
+Theorem C02_compile_disciplined :
+  forall (cfg : config) (i : nat) (ds : list dest) (c : nat) (p : list stmt),
+    observed i ds -> wf_prog [] p = true -> NoDup (declared p) ->
+    disciplined i cfg (fst (compile c p)) (registered ds) = true.
+Proof. exact C02Placement.C02_compile_disciplined. Qed.
+Print Assumptions C02_compile_disciplined.
+
+Theorem C02_unique_program :
+  forall (cfg : config) (i : nat) (ds : list dest) (c0 c : nat) (p : list stmt),
+    observed i ds -> wf_prog [] p = true -> NoDup (declared p) ->
+    NoDup (map (fun m => (fget K_uuid m, fget K_level m))
+               (trace_of (final cfg c0 ds (fst (compile c p))) i)).
+Proof. exact C02Placement.C02_unique_program. Qed.
+Print Assumptions C02_unique_program.
+
+(* a position carrying a message is neither an action object's own level nor a serialized task id *)
+Theorem C02_exclusive :
+  forall (cfg : config) (i c0 : nat) (ds : list dest) (ops : list (nat * op)),
+    observed i ds -> disciplined i cfg ops (registered ds) = true ->
+    (forall m h a, In m (trace_of (final cfg c0 ds ops) i) ->
+       alookup h (heap (final cfg c0 ds ops)) = Some a ->
+       (fget K_uuid m, fget K_level m) <> (Some (VUuid (a_uuid a)), Some (VLevel (a_level a)))) /\
+    (forall m slot u l, In m (trace_of (final cfg c0 ds ops) i) ->
+       alookup slot (ids (final cfg c0 ds ops)) = Some (u, l) ->
+       (fget K_uuid m, fget K_level m) <> (Some (VUuid u), Some (VLevel l))).
+Proof. exact C02Placement.C02_exclusive. Qed.
+Print Assumptions C02_exclusive.
+
+(* limits, by vm_compute witnesses: finish() while current + failing destination (DESIGN F6);
+   messages buffered before the first add_destinations and replayed while a destination fails *)
+Theorem C02_unscoped_refuted :
+  wf_prog [] Refute.prog_f6 = true /\ NoDup (declared Refute.prog_f6) /\
+  disciplined 0 Ex.cfg0 Refute.ops_f6p (registered Ex2.dests_f6) = true /\
+  disciplined2 0 Ex.cfg0 Refute.ops_f6p (registered Ex2.dests_f6) = false /\
+  exists a, alookup 1 (heap Refute.s_f6) = Some a /\ a_finished a = true /\
+    ~ exists m, In m (trace_of Refute.s_f6 0) /\
+        (fget K_uuid m, fget K_level m) =
+          (Some (VUuid (a_uuid a)), Some (VLevel (a_level a ++ [Pos.of_nat (a_last a)]))) /\
+        (fget K_status m = Some (VStatus Succeeded) \/ fget K_status m = Some (VStatus Failed)).
+Proof. exact Refute.C02_unscoped_refuted. Qed.
+Print Assumptions C02_unscoped_refuted.
+
+Theorem C02_buffered_replay_refuted : ~ emission_ordered (trace_of Buffered.s_b 0).
+Proof. exact Buffered.C02_buffered_replay_refuted. Qed.
+Print Assumptions C02_buffered_replay_refuted.
